@@ -39,6 +39,16 @@ def run_one(base, case, run):
     if not os.path.isdir(os.path.join(loc, 'in')):
         write_tree(os.path.join(loc, 'in'), case['dsdl'])
         write_tree(os.path.join(loc, 'in2'), case.get('lookup', {}))
+    tpl = case.get('user_templates')
+    if tpl and not os.path.isdir(os.path.join(loc, 'tpl')):
+        # user template directories = copies of the built-in ones, placed next to the inputs (they move with the location)
+        src_lang = os.path.join(os.environ['PYTHONPATH'].split(os.pathsep)[-1], 'nunavut', 'lang', case['lang'])
+        for sub, dst in (('templates', 'tpl'), ('support', 'stpl')):
+            os.makedirs(os.path.join(loc, dst), exist_ok=True)
+            for n in sorted(os.listdir(os.path.join(src_lang, sub))):
+                fp = os.path.join(src_lang, sub, n)
+                if os.path.isfile(fp) and not n.endswith(('.py', '.pyc')):
+                    shutil.copy(fp, os.path.join(loc, dst, n))
     out = os.path.join(loc, 'out')
     shutil.rmtree(out, ignore_errors=True)
     if run['cwd'] == 'loc':
@@ -53,6 +63,11 @@ def run_one(base, case, run):
         p_root, p_out = os.path.join(loc, 'in', case['root']), out
         p_look = [os.path.join(loc, 'in2', r) for r in case.get('lookup_roots', [])]
     cmd = [PY, '-m', 'nunavut', '--target-language', case['lang'], '-O', p_out] + list(case['args'])
+    rel_ok = run['paths'] == 'rel' and run['cwd'] == 'loc'
+    if tpl:
+        cmd += ['--templates', 'tpl' if rel_ok else os.path.join(loc, 'tpl')]
+        if tpl == 'both':
+            cmd += ['--support-templates', 'stpl' if rel_ok else os.path.join(loc, 'stpl')]
     for l in p_look:
         cmd += ['--lookup-dir', l]
     cmd.append(p_root)
